@@ -6,6 +6,7 @@ import Upf.Proofs.BessEnd
 import Upf.Proofs.TeidWorld
 import Upf.Proofs.PoolWorld
 import Upf.Proofs.History
+import Upf.Proofs.ModTeid
 /-!
 # C05 — Ending a session reclaims everything it ever acquired (BESS part)
 
@@ -153,5 +154,14 @@ theorem addresses_all_returned (base : List Nat) (hb : base.Nodup) (cfg : Cfg) (
   refine ⟨hi, ?_⟩
   have hperm := h.1.perm
   simpa [hi] using hperm
+
+/-- **no envelope**: in every state of the agent model, whatever accepted or refused requests preceded, a Session Deletion of a stored
+session leaves its SEID without UE address and every TEID the UP chose for one of its stored PDRs free again -/
+theorem deletion_returns_address_and_teids (cfg : Agent.Cfg) (w : Agent.World) (a seid : Nat) (s : Agent.Session)
+    (hf : (w.conn a).sessions.find? (·.lseid = seid) = some s) :
+    s.lseid ∉ Agent.poolKeys (Agent.deleteSession cfg w a seid).1.pool ∧
+    ∀ p ∈ s.pdrs, p.chooseTeid = true → 1 ≤ p.tunnelTEID →
+      (Agent.deleteSession cfg w a seid).1.teid.used (p.tunnelTEID - 1) = false :=
+  Agent.deletion_returns_address_and_teids cfg w a seid s hf
 
 end Props.C05
